@@ -6,6 +6,11 @@ Unit `toc`: real TocRenderer._headings after render() against the Lean model `To
 and on arbitrary documents.  Exploration on the implementation with the generator's outline as the
 oracle: entries = qualifying headings in order with their plain text, and the `toc` list nested by
 heading level.
+Nesting is a theorem (`C19_toc_nested`, lemmas in Proofs/Outline.lean): for every heading list that is an outline
+with plain titles, the block phase on the toc lines returns one List nested exactly as the outline, for the token
+lists of the working tree (`C19_toc_config_current`).  Unit `c19.theorem`: random heading lists go to the second
+driver (op c19.outline), which evaluates the hypotheses and the forest the theorem concludes; wherever they hold the
+REAL TocRenderer.toc (its `_headings` set to that list) must be a List nested exactly like that forest.
 """
 import common
 import export
@@ -14,6 +19,7 @@ import impl
 from common import driver_batch
 
 ID = 'C19'
+EXTRA_MODULES = ['Mistletoe.Proofs.Outline', 'propsdriver']
 RULE = ('generated outline documents (first heading shallowest, never deepening by more than one; plain-word titles; ATX '
         'with/without closing #s and setext; at top level, inside block quotes and list items; paragraphs, code and '
         'lists in between) x depth 1-6 x omit_title x filter predicates (substring filters); plus spec/mutated documents '
@@ -21,8 +27,9 @@ RULE = ('generated outline documents (first heading shallowest, never deepening 
 TRUSTED = ['filter_conds are modelled as substring predicates (the harness passes exactly such predicates)']
 ASSUMPTIONS = ['a document with no qualifying heading has no table of contents to check (toc raises IndexError there: '
                'outside "documents whose headings form an outline")']
-PARTIAL = ['nesting of the toc list by level is a parser statement (TocRenderer.toc re-tokenizes indented list lines): '
-           'explored on the implementation against the outline oracle, not yet a Lean theorem',
+PARTIAL = ['nesting of the toc list by level is proved (C19_toc_nested) for heading lists that are outlines with plain titles '
+           '(a letter first, no newline); titles with markup or another first character, and qualifying lists that are not '
+           'outlines, are explored on the implementation against the outline oracle only',
            'plain-text clause: the tag-stripping regex is modelled (Toc.stripTags) and tied by the toc unit; the theorem '
            'that it removes exactly the heading tags for plain-word titles is not proved yet']
 
@@ -195,6 +202,46 @@ def units(ctx):
     model = driver_batch(reqs)
     for case, e, m in zip(meta, exp, model):
         ctx.compare('toc', case, m.get('headings') if isinstance(m, dict) else m, e)
+    theorem_unit(ctx)
+
+
+def real_toc_of(hs):
+    """TocRenderer.toc for a given list of collected headings (the property `toc` reads only `_headings`)."""
+    from mistletoe.contrib.toc_renderer import TocRenderer
+    try:
+        with impl.time_limit(20):
+            with TocRenderer() as r:
+                r._headings = [(l, t) for l, t in hs]
+                return toc_tree(r.toc)
+    finally:
+        impl.reset_library()
+
+
+def forest_tree(f):
+    return [(n['t'], forest_tree(n['kids'])) for n in f]
+
+
+def theorem_unit(ctx):
+    rng = ctx.rng('theorem')
+    lists = []
+    for _ in range(ctx.budget(1200, 12000)):
+        hs = outline(rng)
+        if rng.random() < 0.15:      # not an outline / not plain: the hypothesis must reject it
+            i = rng.randrange(len(hs))
+            hs[i] = rng.choice([(hs[i][0] + 2, hs[i][1]), (hs[i][0], '*' + hs[i][1]), (max(1, hs[0][0] - 1), hs[i][1])])
+        lists.append(hs)
+    res = common.driver_batch([{'op': 'c19.outline', 'headings': [[l, t] for l, t in hs]} for hs in lists], binary=common.PROPS_DRIVER)
+    n_ok = 0
+    for hs, r in zip(lists, res):
+        if not (isinstance(r, dict) and r.get('ok')):
+            continue
+        n_ok += 1
+        try:
+            real = real_toc_of(hs)
+        except Exception as e:
+            real = {'raises': type(e).__name__}
+        ctx.compare('c19.theorem', {'headings': hs}, forest_tree(r['forest']), real, kind='n%d' % len(hs))
+    ctx.notes.append('of %d generated heading lists %d satisfy the hypotheses of C19_toc_nested' % (len(lists), n_ok))
 
 
 def explore(ctx, seeds):
